@@ -156,6 +156,10 @@ class Hist:
     def tick(self):
         self.ev.append("K")
 
+    def dispose(self):
+        """Group.Dispose(): must be the last event of a history"""
+        self.ev.append("X")
+
     def stop_quick(self):
         self.ev.append("Oq")
 
@@ -315,6 +319,16 @@ def gen_rtsp_histories(tier, rng, multi_epoch=False):
                     h.rtp(cls)
             if rng.random() < 0.3 and subs:
                 h.play(rng.choice(subs)[0])
+        if multi_epoch and k % 3 == 0:
+            if rng.random() < 0.6:
+                h.start(pat=False)
+                h.sdp_real("a")
+                h.pub("vsh", ts=0)
+                for x in subs:
+                    h.play(x[0])
+                h.rtp("idr")
+                h.rtp("non")
+            h.dispose()
         yield Case(h.line(), cls="rtsp-random%s" % ("-epochs" if multi_epoch else ""))
 
 
@@ -585,6 +599,10 @@ def check_rtsp(cfg, evs, obs, clauses=("sdp", "gate", "run")):
         elif e[0] in ("O", "Oq"):
             if in_epoch:
                 in_epoch, inforce, known = False, None, False
+        elif e[0] == "X":
+            in_epoch, inforce, known = False, None, False
+            for cid in dpos:
+                lpos.setdefault(cid, pos)
         elif e[0] == "P":
             p = tok_bytes(e[3])
             if classify_payload(int(e[1]), p) == "vsh":
